@@ -1,6 +1,7 @@
 (* Proofs/DequeMonitor_proofs.v — the Broadcast discipline of the repaired pubsub.Deque (Model/DequeMonitor.v):
    every critical section that changes the data broadcasts all three conds, hence (Conc/Monitor.v) no thread is
    ever parked while its predicate holds.  Stdlib + lia; no axioms. *)
+From Coq Require Import PrimFloat.
 From FunV Require Import Base.Tac Conc.Monitor Model.QueueMonitor Model.DequeMonitor
                          Proofs.QueueMonitor_exec Proofs.QueueMonitor_proofs.
 Local Open Scope Z_scope.
@@ -261,4 +262,60 @@ Proof.
   split; [apply dprog_is_deque_prog|]. split; [exact R|].
   split; [apply (quiescentb_sound ddata (dprog [DWaitPop true]) 1 s B Q)|].
   split; [reflexivity|]. split; assumption.
+Qed.
+
+(* ================================================================== the capacity must be re-read (seeded C07-ind3-1)
+   waitPushAfter's predicate is `dq.tracker.cap() > dq.tracker.len()` evaluated on the CURRENT tracker at every
+   re-check (waitpush_w: has_room (d_trk d)); for a deque built with QueueOptions cap() is the dynamic soft quota.
+   The variant that captures cap() once, when the call starts, is a different waiter: it can be parked - quiescently,
+   in a race-free run - although the deque has room.  Quota tracker (soft 1, hard 3, credit 2), one item; the
+   producer captures cap() = 1 and parks; a PushBack on burst credit raises the soft quota to 2 (len 2); one pop
+   leaves len 1 < cap() 2: both broadcast, the producer re-checks `1 <= len` and parks again. *)
+Definition waitpush_captured_w (front : bool) (v : Z) (cap0 : Z) : waiter ddata :=
+  mkWaiter UPDATES (fun d => negb (d_closed d) && (t_len (d_trk d) <? cap0)%Z) d_closed (dbody (DWaitPush front v)) false.
+
+Definition captured_prog : tid -> op ddata :=
+  fun t => match t with
+           | 0 => OWaiter (waitpush_captured_w false 9%Z 1%Z)
+           | 1 => dcompile (DPush false 2%Z)
+           | _ => dcompile (DPop true)
+           end.
+
+Lemma captured_prog_is_deque_prog : deque_prog captured_prog.
+Proof.
+  intros t. destruct t as [|[|t]]; simpl;
+    [|left; exists (DPush false 2%Z); reflexivity|left; exists (DPop true); reflexivity].
+  right. eexists. split; [reflexivity|]. split; [right; right; reflexivity|]. split; [reflexivity|].
+  left. eexists. reflexivity.
+Qed.
+
+Definition captured_d0 : ddata := mkDD [1%Z] (TQuota 1%Z 3%Z 1%Z 2%float) false.
+Definition captured_sched : list elabel :=
+  run_to_park 0 ++ run_effect 1 [] ++ run_repark 0 ++ run_effect 2 [] ++ run_repark 0.
+
+Definition captured_capacity_stuck : Prop :=
+  exists prog d0 s t f v c0, deque_prog prog /\ reach ddata prog d0 true (@no_ctx_race ddata) s /\ quiescent s /\
+    prog t = OWaiter (waitpush_captured_w f v c0) /\ thr s t = Parked /\
+    has_room (d_trk (dat s)) = true /\ d_closed (dat s) = false.
+
+Theorem deque_captured_capacity_refuted : captured_capacity_stuck.
+Proof.
+  destruct (opt_witness (exec_run_nr ddata captured_prog true 3 (init ddata captured_d0) captured_sched)
+              (fun s => quiescentb 3 s = true /\ thr s 0 = Parked /\ has_room (d_trk (dat s)) = true /\ d_closed (dat s) = false))
+    as (s & E & Q & Hs & Hr & Hc).
+  { vm_compute; repeat split; reflexivity. }
+  destruct (exec_nr_from_init ddata captured_prog captured_d0 true 3 captured_sched s E) as [R B].
+  exists captured_prog, captured_d0, s, 0, false, 9%Z, 1%Z.
+  split; [apply captured_prog_is_deque_prog|]. split; [exact R|].
+  split; [apply (quiescentb_sound ddata captured_prog 3 s B Q)|].
+  split; [reflexivity|]. auto.
+Qed.
+
+(* the code's waiter, which re-reads cap(), is never in that situation (deque_all) *)
+Corollary deque_reread_capacity_ok :
+  forall prog d0 hl ok s t f v, deque_prog prog -> reach ddata prog d0 hl ok s ->
+    prog t = OWaiter (waitpush_w f v) -> thr s t = Parked -> has_room (d_trk (dat s)) = false.
+Proof.
+  intros prog d0 hl ok s t f v DP R Hp Hs.
+  destruct (deque_all prog d0 hl ok s DP R t _ Hp (or_introl Hs)) as (_ & _ & _ & X). eapply X. reflexivity.
 Qed.
